@@ -236,16 +236,24 @@ class PlanJoinTablesQuery:
         # get conditions for tables
         binary_ops = []
 
-        def _check_node_condition(node, **kwargs):
-            if isinstance(node, BetweenOperation):
-                self.check_node_condition(node)
-
+        def _collect_binary_ops(node, **kwargs):
             if isinstance(node, BinaryOperation):
                 binary_ops.append(node.op)
 
-                self.check_node_condition(node)
+        query_traversal(query.where, _collect_binary_ops)
 
-        query_traversal(query.where, _check_node_condition)
+        # only a top-level conjunct of WHERE restricts the result on its own: a comparison under NOT or inside OR
+        # must be neither pushed to a table nor turned into a model argument
+        def _top_level_conjuncts(node):
+            if isinstance(node, BinaryOperation) and node.op.lower() == 'and':
+                for arg in node.args:
+                    yield from _top_level_conjuncts(arg)
+            elif node is not None:
+                yield node
+
+        for node in _top_level_conjuncts(query.where):
+            if isinstance(node, (BetweenOperation, BinaryOperation)):
+                self.check_node_condition(node)
 
         self.query_context['binary_ops'] = binary_ops
 
